@@ -53,6 +53,10 @@ pub enum FsOp {
     Exists { path: String },
     ReadWhole { path: String, front: Front },
     WriteWhole { path: String, len: u32, tag: u32, front: Front },
+    /// io_uring front-end on the same tree: one SQE pushed, submitted and reaped at once
+    RingWrite { h: u8, off: u64, len: u32, tag: u32 },
+    RingRead { h: u8, off: u64, len: u32 },
+    RingFsync { h: u8 },
     /// let virtual time pass (re-enter with a larger `now`)
     Advance { ms: u32 },
     /// fault: crash (only durable state survives); used by C07
@@ -85,12 +89,15 @@ impl FsOp {
             FsOp::Exists { .. } => "exists",
             FsOp::ReadWhole { .. } => "read_whole",
             FsOp::WriteWhole { .. } => "write_whole",
+            FsOp::RingWrite { .. } => "ring_write",
+            FsOp::RingRead { .. } => "ring_read",
+            FsOp::RingFsync { .. } => "ring_fsync",
             FsOp::Advance { .. } => "advance",
             FsOp::Crash => "crash",
         }
     }
     pub fn is_sync(&self) -> bool {
-        matches!(self, FsOp::SyncAll { .. } | FsOp::SyncData { .. } | FsOp::SyncDir { .. })
+        matches!(self, FsOp::SyncAll { .. } | FsOp::SyncData { .. } | FsOp::SyncDir { .. } | FsOp::RingFsync { .. })
     }
 }
 
@@ -146,11 +153,22 @@ pub struct FsKnobs {
     pub fs_seed: u64,
 }
 
+/// Open handles and the (lazily created) ring of one host. All methods must run while the host's
+/// `Fs` and `IoUringHostState` are entered — by `RealFs::entered` in the direct driver, by turmoil's
+/// `Sim::step` when used from inside a host program.
+#[derive(Default)]
+pub struct Ops {
+    pub handles: BTreeMap<u8, RealHandle>,
+    pub ring: Option<turmoil_io_uring::IoUring>,
+}
+
 pub struct RealFs {
     pub arc: Arc<Mutex<Fs>>,
+    pub iou: Arc<Mutex<turmoil_io_uring::host::IoUringHostState>>,
     pub now: Duration,
-    pub handles: BTreeMap<u8, RealHandle>,
+    pub ops: Ops,
 }
+
 
 fn res_unit(r: std::io::Result<()>) -> Obs {
     match r {
@@ -159,48 +177,31 @@ fn res_unit(r: std::io::Result<()>) -> Obs {
     }
 }
 
-impl RealFs {
-    pub fn new(k: &FsKnobs) -> Self {
-        let mut cfg = FsConfig::default();
-        if k.sync_pct > 0 {
-            cfg.sync_probability(k.sync_pct as f64 / 100.0);
+impl Ops {
+    fn ring_op(&mut self, h: u8, make: impl FnOnce(turmoil_io_uring::types::Fd) -> turmoil_io_uring::squeue::Entry) -> Result<Option<i32>, String> {
+        use std::os::fd::AsRawFd;
+        let fd = match self.handles.get(&h) {
+            None => return Ok(None),
+            Some(RealHandle::Std(f)) => f.as_raw_fd(),
+            Some(RealHandle::Tokio(f)) => f.as_raw_fd(),
+        };
+        if self.ring.is_none() {
+            self.ring = Some(turmoil_io_uring::IoUring::new(4).map_err(|e| format!("ring: {e}"))?);
         }
-        if k.block_size > 0 {
-            cfg.block_size(k.block_size);
+        let ring = self.ring.as_mut().unwrap();
+        let e = make(turmoil_io_uring::types::Fd(fd)).user_data(7);
+        unsafe { ring.submission().push(&e).map_err(|e| format!("push: {e}"))? };
+        ring.submit().map_err(|e| format!("submit: {e}"))?;
+        let mut cq = ring.completion();
+        cq.sync();
+        match cq.next() {
+            Some(c) => Ok(Some(c.result())),
+            None => Err("ring op did not complete at once although no io latency is configured".into()),
         }
-        RealFs {
-            arc: Arc::new(Mutex::new(Fs::new(cfg, k.fs_seed))),
-            now: Duration::from_secs(1_000_000),
-            handles: BTreeMap::new(),
-        }
-    }
-
-    pub fn entered<R>(&mut self, f: impl FnOnce(&mut Self) -> R) -> R {
-        let arc = self.arc.clone();
-        let _g = turmoil_fs::enter(&arc, EnterCtx { now: self.now, on_corruption: None });
-        f(self)
     }
 
     /// Crash: the host's tasks (and with them every open `File`) are dropped, then only durable state survives.
-    pub fn crash(&mut self) {
-        self.entered(|s| s.handles.clear());
-        self.arc.lock().unwrap().crash();
-    }
-
-    /// Execute one op against the real crate. `Err(msg)` = harness error (e.g. a future was Pending).
-    pub fn exec(&mut self, op: &FsOp) -> Result<Obs, String> {
-        if let FsOp::Advance { ms } = op {
-            self.now += Duration::from_millis(*ms as u64);
-            return Ok(Obs::Unit);
-        }
-        if let FsOp::Crash = op {
-            self.crash();
-            return Ok(Obs::Unit);
-        }
-        self.entered(|s| s.exec_entered(op))
-    }
-
-    fn exec_entered(&mut self, op: &FsOp) -> Result<Obs, String> {
+    pub fn exec_entered(&mut self, op: &FsOp) -> Result<Obs, String> {
         macro_rules! aw {
             ($e:expr) => {
                 match now_or_never($e) {
@@ -434,13 +435,41 @@ impl RealFs {
                     Front::Tokio => res_unit(aw!(tfs::write(path, &data))),
                 }
             }
+            FsOp::RingWrite { h, off, len, tag } => {
+                let data = pattern(*tag, *len);
+                let (off, len) = (*off, *len);
+                let ptr = data.as_ptr();
+                match self.ring_op(*h, move |fd| turmoil_io_uring::opcode::Write::new(fd, ptr, len).offset(off).build())? {
+                    None => Obs::Unjudged,
+                    Some(r) if r >= 0 => Obs::N(r as u64),
+                    Some(_) => Obs::Err(EK::Other),
+                }
+            }
+            FsOp::RingRead { h, off, len } => {
+                let mut buf = vec![0xEEu8; *len as usize];
+                let (off, len) = (*off, *len);
+                let ptr = buf.as_mut_ptr();
+                match self.ring_op(*h, move |fd| turmoil_io_uring::opcode::Read::new(fd, ptr, len).offset(off).build())? {
+                    None => Obs::Unjudged,
+                    Some(r) if r >= 0 => {
+                        buf.truncate(r as usize);
+                        Obs::Bytes(buf)
+                    }
+                    Some(_) => Obs::Err(EK::Other),
+                }
+            }
+            FsOp::RingFsync { h } => match self.ring_op(*h, |fd| turmoil_io_uring::opcode::Fsync::new(fd).build())? {
+                None => Obs::Unjudged,
+                Some(0) => Obs::Unit,
+                Some(_) => Obs::Err(EK::Other),
+            },
             FsOp::Advance { .. } | FsOp::Crash => unreachable!(),
         })
     }
 
     /// Full sweep of the observable tree through the std shim: path -> (is_dir, len, content | entry set).
-    pub fn sweep(&mut self) -> BTreeMap<String, SweepEntry> {
-        self.entered(|_| {
+    /// Full sweep of the observable tree through the std shim: path -> (is_dir, len, content | entry set).
+    pub fn sweep_entered(&self) -> BTreeMap<String, SweepEntry> {
             let mut out = BTreeMap::new();
             for p in std::iter::once(&"/").chain(PATHS.iter()) {
                 let e = match sfs::metadata(p) {
@@ -460,7 +489,60 @@ impl RealFs {
                 out.insert(p.to_string(), e);
             }
             out
-        })
+        }
+}
+
+impl RealFs {
+    pub fn new(k: &FsKnobs) -> Self {
+        let mut cfg = FsConfig::default();
+        if k.sync_pct > 0 {
+            cfg.sync_probability(k.sync_pct as f64 / 100.0);
+        }
+        if k.block_size > 0 {
+            cfg.block_size(k.block_size);
+        }
+        RealFs {
+            arc: Arc::new(Mutex::new(Fs::new(cfg, k.fs_seed))),
+            iou: Arc::new(Mutex::new(turmoil_io_uring::host::IoUringHostState::new())),
+            now: Duration::from_secs(1_000_000),
+            ops: Ops::default(),
+        }
+    }
+
+    pub fn entered<R>(&mut self, f: impl FnOnce(&mut Self) -> R) -> R {
+        let arc = self.arc.clone();
+        let iou = self.iou.clone();
+        let _g = turmoil_fs::enter(&arc, EnterCtx { now: self.now, on_corruption: None });
+        let _g2 = turmoil_io_uring::host::enter(&iou, turmoil_io_uring::host::EnterCtx { now: self.now });
+        f(self)
+    }
+
+    /// One io_uring operation on handle `h`, pushed, submitted and reaped at once (no io latency is
+    /// configured in the fskit drivers, so the CQE is visible immediately). Returns the CQE result.
+    /// Crash: the host's tasks (and with them every open `File` and ring) are dropped, then only durable state survives.
+    pub fn crash(&mut self) {
+        self.entered(|s| {
+            s.ops.handles.clear();
+            s.ops.ring = None;
+        });
+        self.iou.lock().unwrap().crash();
+        self.arc.lock().unwrap().crash();
+    }
+
+    pub fn exec(&mut self, op: &FsOp) -> Result<Obs, String> {
+        if let FsOp::Advance { ms } = op {
+            self.now += Duration::from_millis(*ms as u64);
+            return Ok(Obs::Unit);
+        }
+        if let FsOp::Crash = op {
+            self.crash();
+            return Ok(Obs::Unit);
+        }
+        self.entered(|s| s.ops.exec_entered(op))
+    }
+
+    pub fn sweep(&mut self) -> BTreeMap<String, SweepEntry> {
+        self.entered(|s| s.ops.sweep_entered())
     }
 }
 
@@ -468,8 +550,11 @@ impl Drop for RealFs {
     fn drop(&mut self) {
         // handles must be dropped while entered (File::drop uses the current Fs if set)
         let arc = self.arc.clone();
+        let iou = self.iou.clone();
         let _g = turmoil_fs::enter(&arc, EnterCtx { now: self.now, on_corruption: None });
-        self.handles.clear();
+        let _g2 = turmoil_io_uring::host::enter(&iou, turmoil_io_uring::host::EnterCtx { now: self.now });
+        self.ops.handles.clear();
+        self.ops.ring = None;
     }
 }
 
@@ -530,6 +615,17 @@ pub fn exec_model(m: &mut Model, op: &FsOp) -> Obs {
         FsOp::Exists { path } => Obs::Bool(m.exists(path)),
         FsOp::ReadWhole { path, .. } => m.read_whole(path),
         FsOp::WriteWhole { path, len, tag, .. } => m.write_whole(path, &pattern(*tag, *len)),
+        // the ring looks only at the fd: operations the handle's open mode would not allow through the
+        // synchronous API (and positional writes on O_APPEND handles) are outside the comparison
+        FsOp::RingWrite { h, off, len, tag } => match m.handles.get(h) {
+            Some(hd) if hd.write && !hd.append => m.write_at(*h, *off, &pattern(*tag, *len)),
+            _ => Obs::Unjudged,
+        },
+        FsOp::RingRead { h, off, len } => match m.handles.get(h) {
+            Some(hd) if hd.read => m.read_at(*h, *off, *len as usize),
+            _ => Obs::Unjudged,
+        },
+        FsOp::RingFsync { h } => m.sync_file(*h),
         FsOp::Advance { .. } => Obs::Unit,
         FsOp::Crash => {
             m.crash();
